@@ -266,4 +266,44 @@ theorem run_leaves_partial (cmp : Tree → Tree → Ordering) (g : Granularity) 
 
 example : normalizable [useNested, useAB] = true ∧ safeFor .crate [useNested, useAB] = true := by decide
 
+/-- The groups that are rendered are, put end to end, a permutation of what the granularity step
+returned: regrouping, sorting and dropping empty groups neither lose nor repeat a declaration. -/
+theorem run_groups_permutation (cmp : Tree → Tree → Ordering) (g : Granularity) (gt : GroupTactic)
+    (reorder : Bool) (items normalized : List Item) (groups : List (List Item))
+    (hn : mapE (normalizeItem cmp) items = .ok normalized)
+    (h : rewriteUseRun cmp g gt reorder items = .ok groups) :
+    ∃ merged, withGranularity cmp g normalized = .ok merged ∧ groups.flatten.Perm merged :=
+  run_perm cmp g gt reorder items normalized groups hn h
+
+/-- No merging across attributes or attached comments, for the whole arm and without any
+hypothesis on the declarations: under `Crate`, `Module` and `One` every declaration that has
+attributes or a comment (anywhere in it) is rendered exactly as it was normalised — same path, same
+visibility, same attributes — and no other declaration acquires attributes or a comment. -/
+theorem run_no_merge_across (cmp : Tree → Tree → Ordering) (g : Granularity) (sp : SharedPrefix)
+    (hg : spOf g = some sp) (gt : GroupTactic) (reorder : Bool)
+    (items normalized : List Item) (groups : List (List Item))
+    (hn : mapE (normalizeItem cmp) items = .ok normalized)
+    (h : rewriteUseRun cmp g gt reorder items = .ok groups) :
+    (groups.flatten.filter isProt).Perm (normalized.filter isProt) :=
+  run_protected cmp g sp hg gt reorder items normalized groups hn h
+
+/-- non-vacuity: `#[x] use a::b; use a::c; use a::d; // c` under `Crate`: the two plain
+declarations… are one, the attributed one and the commented one stand as they were. -/
+example (cmp : Tree → Tree → Ordering) :
+    let a : Item := ⟨.mk [i 'a', i 'b'], some [], some (n 'x'), false⟩
+    let c : Item := ⟨.mk [i 'a', i 'c'], some [], none, true⟩
+    withGranularity cmp .crate [a, useAB, c, use [i 'a', i 'd']] =
+      .ok [a, use [i 'a', .list (RF.Sort.stableSort cmp [.mk [i 'b'], .mk [i 'd']])], c] := rfl
+
+/-- The arm never panics on declarations as the parser builds them (well-formed, non-empty paths),
+whatever the granularity, grouping and reordering. -/
+theorem run_total (cmp : Tree → Tree → Ordering) (g : Granularity) (gt : GroupTactic)
+    (reorder : Bool) (items : List Item)
+    (hwf : ∀ it ∈ items, wfPath true it.tree.path = true ∧ it.tree.path ≠ []) :
+    ∃ groups, rewriteUseRun cmp g gt reorder items = .ok groups :=
+  RF.Lemmas.Imports.run_total cmp g gt reorder items hwf
+
+example : ∀ it ∈ [useNested, useAB, useAasX], wfPath true it.tree.path = true ∧ it.tree.path ≠ [] := by
+  decide
+
 end RF.Props.C10
